@@ -49,7 +49,13 @@ func runC03(c *core.Ctx) {
 	}
 	c.Floor("ABS5", 14, "2 group-by nodes × 7 cases")
 	c.Rule("USERS", "SimpleGroupBy keys its groups with Compare-equality (NULL = NULL) and the hash of the whole key")
-	if checkHashmapSites(c, map[string]bool{"execution/nodes.(*SimpleGroupBy).Run": true}) != 1 {
+	hashmapOwners := map[string]bool{}
+	if fn := p.Func("execution/nodes", "(*SimpleGroupBy).Run"); fn != nil {
+		for _, h := range helperClosure(p, fn) {
+			hashmapOwners[p.FName(h)] = true
+		}
+	}
+	if checkHashmapSites(c, hashmapOwners) != 1 {
 		c.Unknown("USERS", "execution/nodes.(*SimpleGroupBy).Run/hashmap.New", 0, "hashmap site not found")
 	}
 	// the ordered group-by keys its tree with GroupKey.Less → CompareValueSlices (C09 ABS1L)
@@ -57,12 +63,18 @@ func runC03(c *core.Ctx) {
 	// output paths
 	if fn := p.Func("execution/nodes", "(*SimpleGroupBy).Run"); fn != nil {
 		var lit *ast.FuncLit
-		ast.Inspect(fn.Decl.Body, func(n ast.Node) bool {
-			if call, ok := n.(*ast.CallExpr); ok && len(call.Args) == 1 && strings.HasSuffix(p.CalleeName(fn.Info(), call), ".Each") {
-				lit, _ = call.Args[0].(*ast.FuncLit)
-			}
-			return true
-		})
+		// the output walk, in Run or in the helper that emits the groups
+		for _, h := range helperClosure(p, fn) {
+			h := h
+			ast.Inspect(h.Decl.Body, func(n ast.Node) bool {
+				if call, ok := n.(*ast.CallExpr); ok && len(call.Args) == 1 && strings.HasSuffix(p.CalleeName(h.Info(), call), ".Each") && lit == nil {
+					if l := funcValueLit(p, h, call.Args[0]); l != nil {
+						lit, fn = l, h
+					}
+				}
+				return true
+			})
+		}
 		if lit == nil {
 			c.Unknown("EMPTY", "execution/nodes.(*SimpleGroupBy).Run/output", fn.Decl.Pos(), "no aggregates.Each(func…) output walk found")
 		} else {
@@ -101,6 +113,7 @@ func checkNullSkip(c *core.Ctx, rel, fname string, ids map[string]int64) {
 		return
 	}
 	c.SawFunc(key)
+	fn = runSite(p, fn)
 	rcs := nodeRunCalls(p, fn)
 	if len(rcs) != 1 || rcs[0].Produce == nil {
 		c.Unknown("NULLSKIP", key, fn.Decl.Pos(), "expected one source.Run with a literal produce callback")
